@@ -152,6 +152,8 @@ def cases(tier):
     out += [JacCase('Log', dict(base=10.0)), JacCase('BoxCox2', dict(minilam=-1.0)), JacCase('Reciprocal', dict(mininu=0.5)),
             JacCase('LogSinh', pin=dict(loga=0.0, logb=0.0)), JacCase('Softmax', xmin=2.0 ** -20)]
     out += [DeclaredBounds(n) for n in names if n != 'Softmax']
+    out += [JacCase('YeoJohnson', pin=dict(lam=l)) for l in (0.0, 0.5, 1.0, 2.0)] + [JacCase('BoxCox2', pin=dict(lam=l)) for l in (0.0, 0.5, 2.0)]
+    out += [JacCase('Manly', pin=dict(lam=0.0)), JacCase('BoxCox2sym', pin=dict(lam=0.0))]
     if tier == 'thorough':
         out += [JacCase('Log', dict(base=2.0)), JacCase('Log', dict(mininu=0.5)), JacCase('BoxCox2sym', dict(minilam=-1.0)), JacCase('BoxCox1nu', dict(minilam=-1.0)),
                 JacCase('BoxCox2', dict(mininu=0.25))]
